@@ -240,7 +240,6 @@ def plan(tier):
     # -- d = 2 -----------------------------------------------------------------------------------------------
     if thorough:
         yield P(["req"], [], "server", "whole"), 2
-        yield P(["req"], [20], "server", "1cut"), 2
 
 
 def _shard(rep, arg):
